@@ -46,11 +46,14 @@ theorem put_uid (s : Server) (old new : Obj) (u : Nat) (hs : UidInv u s) (ho : o
 
 /-! ## `step` -/
 
+/-- an injected response: some status that is neither a success nor "not found" -/
+def FaultCode (env : Env) (k : Kind) (c : Nat) : Prop := env.faults k ≠ .none ∧ c ≠ 200 ∧ c ≠ 404
+
 /-- everything `step` can do, as one case analysis -/
 theorem step_cases (sub : Bool) (env : Env) (k : Kind) (pl : Payload) (s : Server) :
     -- injected fault
     ((env.faults k = .notFound ∧ step sub env k pl s = (slipped env k s, ⟨k, pl, none, 404⟩, none)) ∨
-     (env.faults k = .unprocessable ∧ step sub env k pl s = (slipped env k s, ⟨k, pl, none, 422⟩, none))) ∨
+     (∃ c, FaultCode env k c ∧ step sub env k pl s = (slipped env k s, ⟨k, pl, none, c⟩, none))) ∨
     -- nothing under the name
     (env.faults k = .none ∧ (slipped env k s).obj = none ∧
       step sub env k pl s = (slipped env k s, ⟨k, pl, none, 404⟩, none)) ∨
@@ -65,7 +68,10 @@ theorem step_cases (sub : Bool) (env : Env) (k : Kind) (pl : Payload) (s : Serve
   unfold step
   cases hf : env.faults k with
   | notFound => left; left; simp
-  | unprocessable => left; right; simp
+  | unprocessable => left; right; exact ⟨422, ⟨(by rw [hf]; intro h; cases h), by decide, by decide⟩, by simp⟩
+  | error c =>
+    left; right
+    refine ⟨errCode c, ⟨(by rw [hf]; intro h; cases h), ?_, ?_⟩, by simp⟩ <;> (unfold errCode; split <;> omega)
   | none =>
     right
     cases ho : (slipped env k s).obj with
@@ -78,14 +84,8 @@ theorem step_cases (sub : Bool) (env : Env) (k : Kind) (pl : Payload) (s : Serve
 
 theorem step_kind (sub : Bool) (env : Env) (k : Kind) (pl : Payload) (s : Server) :
     (step sub env k pl s).2.1.kind = k ∧ (step sub env k pl s).2.1.payload = pl := by
-  rcases step_cases sub env k pl s with (⟨_, e⟩ | ⟨_, e⟩) | ⟨_, _, e⟩ | ⟨o, _, _, _, e⟩ | ⟨o, new, _, _, _, e⟩ <;>
+  rcases step_cases sub env k pl s with (⟨_, e⟩ | ⟨c, _, e⟩) | ⟨_, _, e⟩ | ⟨o, _, _, _, e⟩ | ⟨o, new, _, _, _, e⟩ <;>
     rw [e] <;> exact ⟨rfl, rfl⟩
-
-theorem step_code (sub : Bool) (env : Env) (k : Kind) (pl : Payload) (s : Server) :
-    (step sub env k pl s).2.1.code = 200 ∨ (step sub env k pl s).2.1.code = 404 ∨
-    (step sub env k pl s).2.1.code = 422 := by
-  rcases step_cases sub env k pl s with (⟨_, e⟩ | ⟨_, e⟩) | ⟨_, _, e⟩ | ⟨o, _, _, _, e⟩ | ⟨o, new, _, _, _, e⟩ <;>
-    rw [e] <;> simp
 
 /-! ## early exit -/
 
@@ -130,7 +130,7 @@ theorem finish_reqs (p : Patch) (m : M St) :
 def AllOk (l : List Req) : Prop := ∀ r ∈ l, r.code = 200
 
 def stopOf (r : Req) : Stop :=
-  if r.code = 404 then .gone else if r.kind.isJson then .conflict else .raised
+  if r.code = 404 then .gone else if r.code = 422 ∧ r.kind.isJson = true then .conflict else .raised
 
 inductive Good : M St → Prop where
   | ok (st : St) : AllOk st.reqs → Good (.ok st)
@@ -166,7 +166,7 @@ theorem good_doReq (sub : Bool) (env : Env) (k : Kind) (pl : Payload) (st : St) 
     · rename_i h404
       split
       · rename_i hj
-        have : Stop.conflict = stopOf (step sub env k pl st.server).2.1 := by simp [stopOf, h404, hk, hj]
+        have : Stop.conflict = stopOf (step sub env k pl st.server).2.1 := by simp [stopOf, hk, hj]
         rw [this]
         exact Good.stop _ st.reqs _ rfl h hc
       · rename_i hj
@@ -276,11 +276,18 @@ theorem foreign_uid (u : Nat) (w : Foreign) (s : Server) (h : UidInv u s)
         rw [e]; exact (put_uid s o _ u h (h o ho) (by exact h o ho)).2
 
 theorem slipped_uid (u : Nat) (env : Env) (k : Kind) (s : Server) (h : UidInv u s)
-    (hw : ∀ k b, env.slips k ≠ some (.recreate b)) : UidInv u (slipped env k s) := by
+    (hw : ∀ k w, w ∈ env.slips k → ∀ b, w ≠ .recreate b) : UidInv u (slipped env k s) := by
   unfold slipped
-  cases hs : env.slips k with
-  | none => exact h
-  | some w => exact foreign_uid u w s h (fun b e => hw k b (by rw [hs, e]))
+  have : ∀ (l : List Foreign) (s : Server), UidInv u s → (∀ w ∈ l, ∀ b, w ≠ .recreate b) →
+      UidInv u (l.foldl (fun s w => foreign w s) s) := by
+    intro l
+    induction l with
+    | nil => intro s hs _; exact hs
+    | cons w ws ih =>
+      intro s hs hl
+      simp only [List.foldl_cons]
+      exact ih _ (foreign_uid u w s hs (hl w (by simp))) (fun w' hw' => hl w' (by simp [hw']))
+  exact this _ s h (hw k)
 
 theorem applyPayload_uid {pl : Payload} {o new : Obj} (h : applyPayload pl o = some new) : new.uid = o.uid := by
   unfold applyPayload at h
@@ -297,10 +304,10 @@ theorem route_uid (sub ts : Bool) (o new : Obj) (h : new.uid = o.uid) : (route s
   cases sub <;> cases ts <;> simp [h]
 
 theorem step_uid (u : Nat) (sub : Bool) (env : Env) (k : Kind) (pl : Payload) (s : Server)
-    (h : UidInv u s) (hw : ∀ k b, env.slips k ≠ some (.recreate b)) :
+    (h : UidInv u s) (hw : ∀ k w, w ∈ env.slips k → ∀ b, w ≠ .recreate b) :
     UidInv u (step sub env k pl s).1 ∧ ∀ t, (step sub env k pl s).2.1.target = some t → t = u := by
   have hs := slipped_uid u env k s h hw
-  rcases step_cases sub env k pl s with (⟨_, e⟩ | ⟨_, e⟩) | ⟨_, _, e⟩ | ⟨o, _, ho, _, e⟩ | ⟨o, new, _, ho, ha, e⟩
+  rcases step_cases sub env k pl s with (⟨_, e⟩ | ⟨c, _, e⟩) | ⟨_, _, e⟩ | ⟨o, _, ho, _, e⟩ | ⟨o, new, _, ho, ha, e⟩
   · rw [e]; exact ⟨hs, by intro t ht; cases ht⟩
   · rw [e]; exact ⟨hs, by intro t ht; cases ht⟩
   · rw [e]; exact ⟨hs, by intro t ht; cases ht⟩
@@ -315,7 +322,7 @@ def TargetsOk (u : Nat) (st : St) : Prop :=
   UidInv u st.server ∧ ∀ r ∈ st.reqs, ∀ t, r.target = some t → t = u
 
 theorem doReq_targets (u : Nat) (sub : Bool) (env : Env) (k : Kind) (pl : Payload) (st : St)
-    (hw : ∀ k b, env.slips k ≠ some (.recreate b)) (h : TargetsOk u st) :
+    (hw : ∀ k w, w ∈ env.slips k → ∀ b, w ≠ .recreate b) (h : TargetsOk u st) :
     TargetsOk u (doReq sub env k pl st).final := by
   obtain ⟨h1, h2⟩ := doReq_final sub env k pl st
   obtain ⟨s1, s2⟩ := step_uid u sub env k pl st.server h.1 hw
@@ -330,7 +337,7 @@ theorem doReq_targets (u : Nat) (sub : Bool) (env : Env) (k : Kind) (pl : Payloa
 theorem pure_final (st : St) : (pure st : M St).final = st := rfl
 
 theorem stageMerge_targets (u : Nat) (sub : Bool) (p : Patch) (env : Env) (st : St)
-    (hw : ∀ k b, env.slips k ≠ some (.recreate b)) (h : TargetsOk u st) :
+    (hw : ∀ k w, w ∈ env.slips k → ∀ b, w ≠ .recreate b) (h : TargetsOk u st) :
     TargetsOk u (stageMerge sub p env st).final := by
   unfold stageMerge
   apply final_inv (TargetsOk u)
@@ -345,7 +352,7 @@ theorem stageMerge_targets (u : Nat) (sub : Bool) (p : Patch) (env : Env) (st : 
     · exact h1
 
 theorem stageJson_targets (u : Nat) (sub : Bool) (p : Patch) (orig : Obj) (env : Env) (st : St)
-    (hw : ∀ k b, env.slips k ≠ some (.recreate b)) (h : TargetsOk u st) :
+    (hw : ∀ k w, w ∈ env.slips k → ∀ b, w ≠ .recreate b) (h : TargetsOk u st) :
     TargetsOk u (stageJson sub p orig env st).final := by
   unfold stageJson
   apply final_inv (TargetsOk u)
